@@ -5,4 +5,5 @@ import "verif/harness/shq"
 func init() {
 	commands["sh-replay"] = shq.Main
 	commands["probe"] = shq.Probe
+	commands["sh-concurrent"] = shq.Concurrent
 }
